@@ -745,6 +745,11 @@ func (x *Exec) Run() {
 				x.errorf("%s clause for %s never applied on any path of %s (no matching channel operation)", kind, oc.ChanSrc, fnDisplay(x.fn))
 			}
 		}
+		for _, b := range x.c.Binds {
+			if !x.clauseHit[b] {
+				x.errorf("bind clause %s == %s never applied on any path of %s (no matching call)", b.Name, b.Callee, fnDisplay(x.fn))
+			}
+		}
 		for _, ac := range x.c.AtCalls {
 			if !x.clauseHit[ac] {
 				x.errorf("at-call clause %s [%s] never applied on any path of %s (no matching call)", ac.Callee, ac.Pred.Label, fnDisplay(x.fn))
